@@ -8,6 +8,7 @@ import TraitsVerif.Generated.MapSetProg
 import TraitsVerif.Lemmas.SetStep
 set_option linter.unusedSimpArgs false
 set_option linter.unusedVariables false
+set_option linter.unusedSectionVars false
 namespace TraitsVerif.Lemmas.PyLMS
 open TraitsVerif TraitsVerif.Py TraitsVerif.Model.SetM TraitsVerif.Model.PyLM TraitsVerif.Model.PyLM.S
 open TraitsVerif.Py.PSet (insert erase union ofList inter diff symm popChoice Op)
@@ -118,5 +119,50 @@ theorem ts_step_is_source (v : Callback α α) (s : PSet α) (op : Op α) :
   | iand b xs => exact ts_iand v s b xs
   | isub b xs => exact ts_isub v s b xs
   | ixor b xs => exact ts_ixor v s b xs
+
+/-! ### `TraitSetObject._validator` -/
+
+/-- **`TraitSetObject.validator` is the interpretation of the translated
+`_validator`**, for every combination of the attributes it reads, every inner
+trait, ordinal and value. -/
+theorem tso_validator_is_source (σ : TSOSelf) (inner : Bool → Callback α α) (n : Nat) (x : α) :
+    V.runValidator Generated.traitSetObjectValidator σ inner n x = TraitSetObject.validator σ inner n x := by
+  obtain ⟨o, t⟩ := σ
+  cases o with
+  | none =>
+    cases t <;>
+      simp [V.runValidator, Generated.traitSetObjectValidator, V.exec, V.eval, V.getVar, V.setVar, V.truthy,
+        TraitSetObject.validator]
+  | some alive =>
+    cases t with
+    | none =>
+      simp [V.runValidator, Generated.traitSetObjectValidator, V.exec, V.eval, V.getVar, V.setVar, V.truthy,
+        TraitSetObject.validator]
+    | some vn =>
+      cases vn with
+      | true =>
+        cases alive <;>
+          simp [V.runValidator, Generated.traitSetObjectValidator, V.exec, V.eval, V.getVar, V.setVar, V.truthy,
+            TraitSetObject.validator]
+      | false =>
+        cases alive with
+        | false =>
+          cases hi : inner false n x with
+          | ok y =>
+            simp [V.runValidator, Generated.traitSetObjectValidator, V.exec, V.eval, V.getVar, V.setVar, V.truthy,
+              TraitSetObject.validator, hi, Except.map]
+          | error e =>
+            by_cases he : e = .traitError <;>
+              simp [V.runValidator, Generated.traitSetObjectValidator, V.exec, V.eval, V.getVar, V.setVar,
+                V.truthy, TraitSetObject.validator, hi, Except.map, he]
+        | true =>
+          cases hi : inner true n x with
+          | ok y =>
+            simp [V.runValidator, Generated.traitSetObjectValidator, V.exec, V.eval, V.getVar, V.setVar, V.truthy,
+              TraitSetObject.validator, hi, Except.map]
+          | error e =>
+            by_cases he : e = .traitError <;>
+              simp [V.runValidator, Generated.traitSetObjectValidator, V.exec, V.eval, V.getVar, V.setVar,
+                V.truthy, TraitSetObject.validator, hi, Except.map, he]
 
 end TraitsVerif.Lemmas.PyLMS
